@@ -307,8 +307,12 @@ def run(ck: Check) -> None:
                        "predicate": "RunOpt.step_ok (one Optimizer.group_step from the observed state, tol 1e-9)"})
 
     # other dtype pairings: errors / dtype tags / loose bound only
-    pairs = [(a, b) for a in ("float32", "float64", "bfloat16") for b in ("float32", "float64", "bfloat16")]
-    dcases = [c for c in cases[ncorpus:] if "error" not in results[cases.index(c)]][: (6 if not thorough else 30)]
+    # preconditioner_dtype float32 / float64 only: PyTorch has no bfloat16 kernels for eigh/qr and the iterative solvers are not
+    # meant for 8 bits of mantissa (C03 records the QR/bfloat16 case as known finding F11); direct solvers only, so that a raised
+    # error is never a legitimate non-convergence
+    pairs = [(a, b) for a in ("float32", "float64", "bfloat16") for b in ("float32", "float64")]
+    dcases = [c for c in cases[ncorpus:] if "error" not in results[cases.index(c)]
+              and c["groups"][0]["cfg"]["amort"] in ("eigen", "eigen_stab", "eigh", "qr")][: (6 if not thorough else 30)]
     for c in dcases:
         c["groups"][0]["cfg"]["eps"] = max(c["groups"][0]["cfg"]["eps"], 1e-2)
     jobs = [(c, a, b) for c in dcases for a, b in pairs]
@@ -321,9 +325,11 @@ def run(ck: Check) -> None:
         dt_hist[key]["runs"] += 1
         if r["dev"] == r["dev"] and r["dev"] != float("inf"):
             dt_hist[key]["max_dev"] = max(dt_hist[key]["max_dev"], round(r["dev"], 6))
-        budget = 1e-6 if (a, b) == ("float64", "float64") else (5e-2 if "bfloat16" not in (a, b) else 1.0)
-        if r["error"] or r["bad_dtypes"] or not (r["dev"] <= budget):
-            ck.report(None, f"dtype pairing param={a} preconditioner={b}: " + (r["error"] or "; ".join(r["bad_dtypes"][:3]) or f"deviation {r['dev']:.3g} from the float64 run exceeds the loose budget {budget}"),
+        # the deviation from the float64 run is RECORDED only (eigenbases are not unique, so trajectories may legitimately differ at
+        # lower precision); the verdict is: no exception, finite parameters, documented dtype tags - and float64/float64 reproduces itself
+        bad_val = (r["dev"] != r["dev"]) or r["dev"] == float("inf") or ((a, b) == ("float64", "float64") and r["dev"] > 1e-9)
+        if r["error"] or r["bad_dtypes"] or bad_val:
+            ck.report(None, f"dtype pairing param={a} preconditioner={b}: " + (r["error"] or "; ".join(r["bad_dtypes"][:3]) or f"non-finite parameters or float64 run not reproducible (deviation {r['dev']:.3g})"),
                       {"kind": "dtype-pairing", "case": c, "param_dtype": a, "preconditioner_dtype": b, "result": r})
 
     ck.coverage.update({
@@ -340,8 +346,8 @@ def run(ck: Check) -> None:
 
 
 def dtype_worker(args):
-    """Control-flow / dtype-tag tie for the other dtype pairings: the step must not raise, state tensors carry the documented
-    dtypes, and the parameters stay within a loose bound of the float64 run (values are NOT tied at these precisions)."""
+    """Control-flow / dtype-tag tie for the other dtype pairings: the step must not raise, parameters stay finite and state tensors
+    carry the documented dtypes (values are NOT tied at these precisions; the deviation from the float64 run is only recorded)."""
     import logging
     import torch
     logging.disable(logging.CRITICAL)
